@@ -100,6 +100,24 @@ def special_cases():
     one(".repeat 200000. { nop }\n")                                          # beyond MAX_REPETITIONS: value-out-of-bounds
     one(".byte 1\n.align 200000.\n.word 1\n")                                 # .align count is a uint16 now
     one(".byte 1\n.align 40000.\n.byte 2\n")
+    # left shifts beyond MAX_SHIFT = 65536 are refused (MemoryError -> error too-complex, failed), whatever the value would have been
+    one(".word (1 << 65535.) >> 65535., (1 << 65536.) >> 65536.\n.word (1 _ 65536.) _ -65536., 0 << 65536., 0 _ 65536.\n")     # carried out
+    one(".word (1 << 65537.) >> 65537.\n")
+    one(".word 0 << 65537.\n")
+    one(".word 0 _ 65537.\n")
+    one(".word 0 << 1099511627776.\nnop\n")                                  # 2**40
+    one(".word 0 _ 1099511627776.\nnop\n")
+    one(".word 1 >> -65537.\n")                                              # arithmetic-error first, then the refusal
+    one(".word 1 _ -70000., -1 _ -70000., 1 >> 70000.\n")     # right shifts are not bounded (Z.shiftr iterates: no 2**40 here)
+    one("a = 0 << 70000.\nnop\n.word b\nb = 0 << 65536.\n")                   # an unused definition is evaluated too
+    one(".word a\na = 0 << 70000.\n")
+    one(".blkb 0 _ 1099511627776.\nl: .word l\n")                            # in a count
+    one(".repeat (0 << 65537.) + 2 { nop }\n")
+    one(".link 1000 + (0 << 65537.)\nl: .word l\n")                           # in the base
+    one(".link 1000 + (0 << 65536.)\nl: .word l\n")
+    one("s: nop\ne: .repeat (e - s) << 65537. { nop }\n")                     # through the relative layout
+    one("mov #0 << 65536., r0\nmov #1 _ -65537., r1\n")
+    one("mov #0 << 65536., r0\nmov #0 << 65537., r0\n")
     one(".blkb l\nl: nop\n")                                         # count needs a later label: outside the subset
     one(".link l\nl: nop\n")                                         # base through a label: outside the subset
     one("push r0\npop r1\ncall @#100\nret\nreturn\nccc\nscc\n")
